@@ -287,3 +287,27 @@ def wellTypedTB (P : Program) : Bool :=
   P.top.binds.all fun b => !b.split
 
 end Martian.ResolverStatic
+
+namespace Martian.ResolverStatic
+open Martian.Dataflow
+
+/-- nesting depth of a callable in the call graph (0 for stages / unknown names), with fuel -/
+def callDepth (P : Program) : Nat → String → Nat
+  | 0, _ => 0
+  | n+1, name =>
+    match P.callables.lookup name with
+    | some (.pipeline _ _ calls _) => 1 + (calls.map fun c => callDepth P n c.callee).foldl max 0
+    | _ => 0
+
+/-- the call graph is acyclic and `Program.fuel` exceeds its depth (decidable) -/
+def callGraphAcyclicB (P : Program) : Bool :=
+  (P.callables.all fun e =>
+    match e.2 with
+    | .stage _ _ => true
+    | .pipeline _ _ calls _ =>
+      calls.all fun c => (P.callables.lookup c.callee).isNone ||
+        callDepth P P.callables.length c.callee < callDepth P P.callables.length e.1) &&
+  callDepth P P.callables.length P.top.callee < P.fuel
+
+end Martian.ResolverStatic
+
